@@ -33,13 +33,18 @@ Theorem c07_variant_scope : forall ca v cv,
        end.
 Proof. exact expand_variant_scope. Qed.
 
-(** the effective key: rename wins, then rename_all, then the identifier *)
+(** the effective key: rename wins, then rename_all, then the identifier - the identifier itself,
+    i.e. without the raw-identifier escape: the field [r#type] is keyed [type] *)
 Theorem c07_effective_key : forall ident ra name,
   key_name_for_ident ident ra (Some name) = name
-  /\ key_name_for_ident ident None None = ident
-  /\ key_name_for_ident ident (Some RALower) None = lowercase ident
-  /\ key_name_for_ident ident (Some RACamel) None = camel_case ident.
+  /\ key_name_for_ident ident None None = unraw ident
+  /\ key_name_for_ident ident (Some RALower) None = lowercase (unraw ident)
+  /\ key_name_for_ident ident (Some RACamel) None = camel_case (unraw ident).
 Proof. intros. repeat split. Qed.
+
+Example c07_unraw : unraw "r#type" = "type" /\ unraw "type" = "type" /\ unraw "r#" = "r#" /\ unraw "r" = "r"
+                     /\ key_name_for_ident "r#type" None None = "type" /\ key_name_for_ident "r#my_loop" (Some RACamel) None = "myLoop".
+Proof. vm_compute. repeat split. Qed.
 
 Example c07_camel_examples :
   camel_case "my_field" = "myField" /\ camel_case "http_url2" = "httpUrl2" /\ camel_case "_lead" = "lead"
@@ -132,9 +137,9 @@ Check c07_variant_scope : forall ca v cv,
        end.
 Check c07_effective_key : forall ident ra name,
   key_name_for_ident ident ra (Some name) = name
-  /\ key_name_for_ident ident None None = ident
-  /\ key_name_for_ident ident (Some RALower) None = lowercase ident
-  /\ key_name_for_ident ident (Some RACamel) None = camel_case ident.
+  /\ key_name_for_ident ident None None = unraw ident
+  /\ key_name_for_ident ident (Some RALower) None = lowercase (unraw ident)
+  /\ key_name_for_ident ident (Some RACamel) None = camel_case (unraw ident).
 Print Assumptions c07_pairing.
 Print Assumptions c07_variant_scope.
 Print Assumptions c07_effective_key.
